@@ -195,11 +195,13 @@ func parseStackPCs(crash string) ([]uintptr, error) {
 	// getPC parses the PC out of a line of the form:
 	//     \tFILE:LINE +0xRELPC sp=... fp=... pc=...
 	getPC := func(line string) (uint64, error) {
-		_, pcstr, ok := strings.Cut(line, " pc=") // e.g. pc=0x%x
-		if !ok {
+		// pc= is the last field of the line; look for its last occurrence,
+		// since the file name at the start of the line may contain " pc=" too.
+		i := strings.LastIndex(line, " pc=") // e.g. pc=0x%x
+		if i < 0 {
 			return 0, fmt.Errorf("no pc= for stack frame: %s", line)
 		}
-		return strconv.ParseUint(pcstr, 0, 64) // 0 => allow 0x prefix
+		return strconv.ParseUint(line[i+len(" pc="):], 0, 64) // 0 => allow 0x prefix
 	}
 
 	var (
